@@ -232,7 +232,7 @@ def history(draw: Any, max_len: int = 120, min_len: int = 10, synthetic: bool = 
     h = frames[start:start + n]
     muts = []
     for _ in range(draw(st.integers(0, 6))):
-        kind = draw(st.sampled_from(("delete", "duplicate", "swap", "move-block", "splice", "corpus-lines", "field", "field", "field") + (("synthetic", "synthetic", "array-pair", "dhw-roles") if synthetic else ())))
+        kind = draw(st.sampled_from(("delete", "duplicate", "swap", "move-block", "splice", "corpus-lines", "field", "field", "field") + (("synthetic", "synthetic", "array-pair", "dhw-roles", "zone-actuators") if synthetic else ())))
         if not h:
             break
         i = draw(st.integers(0, len(h) - 1))
@@ -266,6 +266,19 @@ def history(draw: Any, max_len: int = 120, min_len: int = 10, synthetic: bool = 
             ctl = next((f[7:16] for f in h if f[7:9] == "01"), None) or next((f[17:26] for f in h if f[17:19] == "01"), "01:145038")
             parts = draw(st.lists(st.sampled_from(("000E", "010E", "000F", "000D")), min_size=2, max_size=4))
             h[i:i] = [f"RP --- {ctl} 18:006402 --:------ 000C 006 {p_}00" + ("1CB388" if p_ == "000D" else draw(st.sampled_from(("34C27E", "34C27F")))) for p_ in parts]
+        elif kind == "zone-actuators":
+            # the controller lists the actuators of 1-3 zones (RP|000C with several devices each), drawn from a pool of five TRVs - so one
+            # device can be named for two zones (the second naming must be refused / reported) - possibly as the FIRST mention of that zone
+            ctl = next((f[7:16] for f in h if f[7:9] == "01"), None) or next((f[17:26] for f in h if f[17:19] == "01"), "01:145038")
+            pool = ("10DAF5", "10DAF6", "10DAF7", "10DAF8", "0D2E6B")  # 04:056053.. / 03:077419
+            new = []
+            for _ in range(draw(st.integers(1, 3))):
+                zz = f"{draw(st.integers(0, 11)):02X}"
+                devs = draw(st.lists(st.sampled_from(pool), min_size=2, max_size=4, unique=True))
+                role = draw(st.sampled_from(("00", "00", "08", "04")))
+                pl = "".join(f"{zz}{role}00{d}" for d in devs)
+                new.append(f"RP --- {ctl} 18:006402 --:------ 000C {len(pl) // 2:03d} {pl}")
+            h[i:i] = new
         elif kind == "array-pair":
             # two adjacent zone-config broadcasts of the controller: whole array / part of an array / a single element, in either order
             # (the gateway merges the second into the first when it looks like a continuation - dispatcher.detect_array_fragment)
